@@ -15,7 +15,10 @@ SPEC = {
                  'C16_ty_only_selects_driver', 'C16_sender_bound_refuted', 'C16_sender_bound_partial',
                  # extension: secp256k1eth note mode
                  'C16_eth_same_action_same_verdict', 'C16_eth_unbound_outer_fields', 'C16_eth_accepted_binds',
-                 'C16_eth_altered_fails_refuted'],
+                 'C16_eth_altered_fails_refuted', 'C16_eth_unbound_outer_fields_ok',
+                 # extension: general decoder against the encoder
+                 'C16_wire_decode_encode', 'C16_signed_bytes_decode', 'C16_wire_decode_encode_unknown',
+                 'C16_wire_decode_injective_refuted', 'C16_wire_decode_injective_partial'],
     'allowed_axioms': [],
     'shard': 200,
     'rule': 'schema of Transaction/Signature by reflection (1 case); encodings of generated transactions (every field '
@@ -71,8 +74,11 @@ SPEC = {
     'assumptions': [
         'no executor-specific crypto driver override (ExecutorType.GetCryptoDriver returns ErrNotSupport, the ExecTypeBase default)',
         'Transaction.To is valid UTF-8 (proto.Marshal rejects other strings and types.Encode panics)',
-        'C16_eth_* theorems carry the boolean guard decodes_plainb (the signed bytes decode back to the declared fields); the '
-        'correspondence check evaluates the general decoder on every eth / wire case',
+        'C16_eth_same_action_same_verdict / _unbound_outer_fields / _accepted_binds carry the boolean guard decodes_plainb (the signed '
+        'bytes decode back to the declared fields); C16_signed_bytes_decode discharges it for every transaction Go can hold '
+        '(wire_okb: int ranges, valid UTF-8 in to, lengths below 2^64) and C16_eth_unbound_outer_fields_ok is the guard-free form',
+        'C16_wire_decode_encode_unknown covers unknown fields in canonical varint / length-delimited / fixed32 / fixed64 form at '
+        'message level; groups, over-long varints and unknown fields inside the Signature are covered by the correspondence check only',
         'negative block heights bypass the enable check (crypto.WithLoadOptionEnableCheck) - modelled, outside the spec oracle',
         'Signature.Ty bits outside CryptoIDMask 0x3fff8fff (address id bits 12-14, bits 30-31) do not select the driver: in the '
         'original CVerify stream a changed ty that still names an enabled driver is not judged; the CFrom stream judges it (a '
